@@ -1,4 +1,5 @@
 from math import isclose
+from itertools import repeat
 from collections import abc
 from typing import Union, Tuple, Mapping, Iterable, Literal, Callable, Optional, Any
 
@@ -271,7 +272,10 @@ class SafeLearner(Learner):
         return method(*args,**kwargs)
 
     def _method2(self,method,args,kwargs):
-        pred = [ method(*a,**{k:v[i] for k,v in kwargs.items()}) for i,a in enumerate(zip(*args)) ]
+        #an argument that is None (e.g. the context of interactions without one) is None for every row
+        n    = SafeLearner.batch_size(args)
+        rows = zip(*[ a if a is not None else repeat(None,n) for a in args ])
+        pred = [ method(*a,**{k:v[i] for k,v in kwargs.items()}) for i,a in enumerate(rows) ]
         if not pred:
             raise CobaException(
                 f"Something went wrong. No prediction was returned when using batch fallback methods "
